@@ -546,6 +546,22 @@ class XrPlugin:
                 sk = s.deref(k.get("skipna", True))
                 return xa_mean(i, s, o, dim, True if sk is None else bool(sk))
             return method(mean)
+        if name == "std":
+            def std(i, s, a, k):
+                dim = s.deref(k["dim"]) if "dim" in k else (s.deref(a[0]) if a else None)
+                if not isinstance(dim, str) or k.get("ddof"):
+                    raise Unsupported("std over all / several dimensions or with ddof")
+                sk = s.deref(k.get("skipna", True))
+                sk = True if sk is None else bool(sk)
+                if sk and f["nan"] is not None:
+                    raise Unsupported("std(skipna=True) of data with missing values")
+                # population standard deviation: sqrt(mean((x - mean(x))**2)) along dim
+                m = s.deref(xa_mean(i, s, o, dim, sk))
+                dev = s.deref(xr_apply(s, T.sub, [o, m]))
+                sq = s.deref(xr_apply(s, T.mul, [dev, dev]))
+                var = s.deref(xa_mean(i, s, sq, dim, sk))
+                return xr_apply(s, lambda x: T.uf("sqrt", x), [var])
+            return method(std)
         if name == "argmax":
             return method(lambda i, s, a, k: xa_argmax(i, s, o, s.deref(k["dim"]) if "dim" in k else s.deref(a[0]),
                                                        skipna=(True if k.get("skipna", True) is None else bool(s.deref(k.get("skipna", True))))))
